@@ -309,6 +309,9 @@ pub struct MomCfg {
     pub scale: String,
     pub p_cancel: String,
     pub path: Vec<i64>, // grid index of the mid at each step (mid = (offset + idx) * tick)
+    /// per step: 0 = quotes one tick either side of the level; +1 / -1 = the ask / the bid one tick further out,
+    /// so that the spread is odd and the mid sits half a tick above / below the level
+    pub skew: Vec<i8>,
     /// grid-index offset of the whole path: 0 (mids around 500 ticks) or large (mids around 10^8,
     /// where a single-precision float no longer holds a price exactly)
     pub offset: i64,
@@ -324,7 +327,8 @@ fn mom_loop<E: AEnv>(cfg: &MomCfg, env: &mut E, a: usize, mut update: impl FnMut
     let mut rng = Xoroshiro128StarStar::seed_from_u64(cfg.seed);
     let mut out = MomOut { steps: Vec::new(), aborted: false };
     let mut quotes: Vec<usize> = Vec::new();
-    for idx in cfg.path.iter() {
+    for (step_i, idx) in cfg.path.iter().enumerate() {
+        let skew = cfg.skew.get(step_i).copied().unwrap_or(0);
         // re-quote: cancel the old quotes, place a huge bid/ask one tick either side of the level
         if !quotes.is_empty() {
             for q in quotes.drain(..) { env.qcancel(a, q); }
@@ -332,12 +336,14 @@ fn mom_loop<E: AEnv>(cfg: &MomCfg, env: &mut E, a: usize, mut update: impl FnMut
         }
         let level = ((cfg.offset + *idx) as u32) * cfg.tick;
         let n0 = env.book(a).get_orders().len();
-        env.submit(a, Side::Bid, 1_000_000, 9000, Some(level - cfg.tick));
-        env.submit(a, Side::Ask, 1_000_000, 9000, Some(level + cfg.tick));
+        env.submit(a, Side::Bid, 1_000_000, 9000, Some(level - cfg.tick * if skew < 0 { 2 } else { 1 }));
+        env.submit(a, Side::Ask, 1_000_000, 9000, Some(level + cfg.tick * if skew > 0 { 2 } else { 1 }));
         quotes.push(n0);
         quotes.push(n0 + 1);
         env.do_step(&mut rng);
-        let mid2 = (env.book(a).mid_price() * 2.0) as u64;
+        // twice the mid-price, from the touch prices themselves (exact; independent of `mid_price()`)
+        let (qb, qa) = env.book(a).bid_ask();
+        let mid2 = qb as u64 + qa as u64;
         let n_before = env.book(a).get_orders().len();
         if catch_unwind(AssertUnwindSafe(|| update(env, &mut rng))).is_err() { out.aborted = true; return out; }
         let (mut mb, mut ms, mut lb, mut ls) = (0, 0, 0, 0);
@@ -379,8 +385,11 @@ pub fn gen_mom_cfg(rng: &mut Xoroshiro128StarStar, saturated: bool) -> MomCfg {
     let mut idx: i64 = rng.gen_range(400..600);
     let shape = rng.gen_range(0..4); // rising, falling, mixed, flat-ish
     let mut path = Vec::new();
+    let mut skew: Vec<i8> = Vec::new();
+    let skewed = rng.gen::<f64>() < 0.5;
     for _ in 0..len {
         path.push(idx);
+        skew.push(if skewed { [0i8, 0, 1, -1][rng.gen_range(0..4)] } else { 0 });
         let d: i64 = match shape {
             0 => rng.gen_range(1..6),
             1 => -rng.gen_range(1..6),
@@ -402,6 +411,7 @@ pub fn gen_mom_cfg(rng: &mut Xoroshiro128StarStar, saturated: bool) -> MomCfg {
         scale: if saturated { "1099511627776".into() } else { ["1/100", "1/8", "1/2"][rng.gen_range(0..3)].into() },
         p_cancel: ["0/1", "1/2", "1/1"][rng.gen_range(0..3)].into(),
         path,
+        skew,
         offset: if rng.gen::<f64>() < 0.25 { (100_000_000 / tick) as i64 + rng.gen_range(0..8) } else { 0 },
     }
 }
@@ -411,12 +421,13 @@ impl MomCfg {
         let c: i64 = 500;
         MomCfg { multi: self.multi, tick: self.tick, seed: self.seed, n: self.n, decay: self.decay.clone(), ratio: self.ratio.clone(),
                  demand: self.demand.clone(), scale: self.scale.clone(), p_cancel: self.p_cancel.clone(),
-                 path: self.path.iter().map(|p| 2 * c - p).collect(), offset: self.offset }
+                 path: self.path.iter().map(|p| 2 * c - p).collect(), skew: self.skew.iter().map(|k| -k).collect(), offset: self.offset }
     }
     pub fn line(&self) -> String {
-        format!("{} tick={} seed={} n={} decay={} ratio={} demand={} scale={} pcancel={} path={} offset={}", if self.multi { "menv" } else { "env" }, self.tick, self.seed,
+        format!("{} tick={} seed={} n={} decay={} ratio={} demand={} scale={} pcancel={} path={} offset={} skew={}", if self.multi { "menv" } else { "env" }, self.tick, self.seed,
             self.n, self.decay, self.ratio, self.demand, self.scale, self.p_cancel,
-            self.path.iter().map(|p| p.to_string()).collect::<Vec<_>>().join(","), self.offset)
+            self.path.iter().map(|p| p.to_string()).collect::<Vec<_>>().join(","), self.offset,
+            self.skew.iter().map(|p| p.to_string()).collect::<Vec<_>>().join(","))
     }
 }
 
